@@ -38,12 +38,19 @@ impl<S: Storage> TableScanExecutor<S> {
 
         // The optimizer treats a scan of the disk engine that includes the primary key as
         // ordered by that key, which only holds across row-sets for a sorted (merging) scan.
-        let is_sorted = self.storage.as_disk().is_some() && {
+        // It may also prune the key from the column list of a scan whose order a parent relies
+        // on (`SELECT v FROM t ORDER BY k`): the key is then read as well, to merge by it, and
+        // dropped from the output.
+        let visible = col_idx.len();
+        let is_sorted = self.storage.as_disk().is_some() && !self.columns.is_empty() && {
             let sort_keys = find_sort_key_id(&table.columns()?);
+            for key in &sort_keys {
+                let key = StorageColumnRef::Idx(*key as u32);
+                if !col_idx.contains(&key) {
+                    col_idx.push(key);
+                }
+            }
             !sort_keys.is_empty()
-                && sort_keys
-                    .iter()
-                    .all(|key| col_idx.contains(&StorageColumnRef::Idx(*key as u32)))
         };
 
         let txn = table.read().await?;
@@ -60,6 +67,8 @@ impl<S: Storage> TableScanExecutor<S> {
         while let Some(mut x) = it.next_batch(None).await? {
             if self.columns.is_empty() {
                 x = DataChunk::no_column(x.cardinality());
+            } else if col_idx.len() > visible {
+                x = x.arrays()[..visible].iter().cloned().collect();
             }
             yield x;
         }
